@@ -532,6 +532,12 @@ from ..through_time import make_rule as _mk_tt, make_t2 as _mk_t2
 _through_time = _mk_tt("C06")
 _small_edits = _mk_t2("C06")
 
+
+def _round7_own_codes(ctx):
+    from .round7 import set_data_range_raw, retarget_by_membership
+    set_data_range_raw(ctx, "C06-R9")
+    retarget_by_membership(ctx, "C06-R9")
+
 RULES = [
     ("C06-R5", r5_stale_shape),
     ("C06-R1", r1_accepted_bytes),
@@ -544,6 +550,7 @@ RULES = [
     ("C06-T1", _through_time),
     ("C06-T2", _small_edits),
     ("C06-R8", r8_strict_text_and_private_tables),
+    ("C06-R9", _round7_own_codes),
 ]
 
 
